@@ -109,6 +109,24 @@ Proof.
 Qed.
 Print Assumptions C24_namespaces_in_words.
 
+(** From the configuration file to the gate: minimal mode switches every
+    endpoint group off, whatever the group's own toggle says (even an explicit
+    true); without it a group is off exactly when its toggle is false.  The
+    shape of the three HTTPConfig methods and the health.ServerConfig literal
+    in the agent are regenerated facts (C24_source_facts); the real path
+    configuration text -> config.Parse -> agent.New -> handler is run by the
+    harness for every combination. *)
+Theorem C24_config_to_flags :
+  forall (minimal : bool) (remote dashboard pprof : option bool),
+    let f := flags_of_config minimal remote dashboard pprof in
+    (minimal = true -> f = mkFlags false false false) /\
+    (minimal = false ->
+       (f_remote f = false <-> remote = Some false) /\
+       (f_dashboard f = false <-> dashboard = Some false) /\
+       (f_pprof f = false <-> pprof = Some false)).
+Proof. exact config_to_flags. Qed.
+Print Assumptions C24_config_to_flags.
+
 (** Concrete requests (non-vacuity of the hypotheses above, and the corner
     cases of token presentation). *)
 Theorem C24_examples :
@@ -144,6 +162,15 @@ Theorem C24_source_facts :
   gen_reject_returns_without_next = true /\
   gen_reject_status = "http.StatusUnauthorized"%string /\
   lit gen_bearer_prefix = bearer_prefix /\ gen_bearer_offset = 7 /\
-  gen_auth_header = "Authorization"%string /\ gen_query_key = "token"%string.
+  gen_auth_header = "Authorization"%string /\ gen_query_key = "token"%string /\
+  gen_server_config_literals = 1 /\
+  gen_server_config_wiring =
+    [("TokenHash", "a.cfg.HTTP.TokenHash"); ("EnablePprof", "a.cfg.HTTP.PprofEnabled()");
+     ("EnableDashboard", "a.cfg.HTTP.DashboardEnabled()"); ("EnableRemoteAPI", "a.cfg.HTTP.RemoteAPIEnabled()")]%string /\
+  gen_group_methods =
+    [("PprofEnabled", "ifh.Minimal{returnfalse};returnh.Pprof==nil||*h.Pprof");
+     ("DashboardEnabled", "ifh.Minimal{returnfalse};returnh.Dashboard==nil||*h.Dashboard");
+     ("RemoteAPIEnabled", "ifh.Minimal{returnfalse};returnh.RemoteAPI==nil||*h.RemoteAPI")]%string /\
+  gen_http_toggle_writers = [].
 Proof. repeat split; vm_compute; reflexivity. Qed.
 Print Assumptions C24_source_facts.
